@@ -104,14 +104,26 @@ package resolver
 // ---- C19: DID documents from peers / remote servers reach go-did only without null verification methods ----
 // go-did (a dependency, not verified) dereferences null entries of verificationMethod while resolving
 // relationship references. ASSUMED: json.Unmarshal into a did.Document does not panic otherwise.
+// The screen looks at EVERY member whose name encoding/json would match with "verificationMethod"
+// (case-insensitively): go-did re-marshals the document with sorted keys and decodes it case-insensitively,
+// so the spelling it ends up with need not be the exact one.
+//@ func hasNullEntry
+//@   prop C19
+//@   safety
+//@   modifies nothing
+//@   loop 1 invariant forall k int :: 0 <= k && k < $i ==> string(entries[k]) != "null"
+//@   ensures [clean-means-no-null-entry] !result ==> arg(call json.Unmarshal #1, 0) == []byte(value)
+//@        && ( !isNilIface(ret(call json.Unmarshal #1)) || (forall k int :: 0 <= k && k < len(entries) ==> string(entries[k]) != "null") )
 //@ func UnmarshalDocument
 //@   prop C19
 //@   safety
 //@   modifies *document
 //@   requires document != nil
-//@   loop 1 invariant forall k int :: 0 <= k && k < $i ==> string(methods[k]) != "null"
-//@   call json.Unmarshal #3 requires [go-did-sees-the-document-only-after-the-null-entry-screen]
-//@        isNilIface(ret(call json.Unmarshal #1)) && arg(call json.Unmarshal #1, 0) == data && arg(0) == data && arg(1) == any(document)
-//@        && arg(call json.Unmarshal #2, 0) == []byte(raw.VerificationMethod)
-//@        && ( !isNilIface(ret(call json.Unmarshal #2)) || ($done1 && forall k int :: 0 <= k && k < len(methods) ==> string(methods[k]) != "null") )
-//@   ensures [success-only-through-go-did] isNilIface(result) ==> did(call json.Unmarshal #3) && isNilIface(ret(call json.Unmarshal #3))
+// of the members looked at so far, none that matches the name had a null entry
+//@   loop 1 invariant !did(call strings.EqualFold #1) || !ret(call strings.EqualFold #1) || (did(call hasNullEntry #1) && !ret(call hasNullEntry #1))
+//@   call strings.EqualFold #1 requires [every-spelling-of-the-member-is-screened] arg(0) == name && arg(1) == "verificationMethod"
+//@   call hasNullEntry #1 requires [the-members-own-value-is-screened] same(arg(0), value)
+//@   call json.Unmarshal #2 requires [go-did-sees-the-document-only-after-the-null-entry-screen]
+//@        isNilIface(ret(call json.Unmarshal #1)) && arg(call json.Unmarshal #1, 0) == data && arg(call json.Unmarshal #1, 1) == any(&members)
+//@        && arg(0) == data && arg(1) == any(document) && $done1
+//@   ensures [success-only-through-go-did] isNilIface(result) ==> did(call json.Unmarshal #2) && isNilIface(ret(call json.Unmarshal #2))
